@@ -241,6 +241,8 @@ def hist (toks impl : List String) : String :=
   match ops.mapM parseOp with
   | none => "E E bad-op"
   | some ops =>
+    -- every update argument printed by the harness must be a value of the regenerated graph
+    if !(ops.all Op.wtArg) then s!"D {if specHist impl then "S" else "V"} update-argument-not-a-value-of-the-regenerated-graph" else
     let st := Redact.run ops
     match qs.mapM (answer st) with
     | none => "E E bad-query"
